@@ -105,7 +105,8 @@ type c12PKI struct {
 	serverBy  []tls.Certificate // serverBy[k]: a server leaf signed by cas[k], SAN DNS origin.test + c12.example
 	clientOK  tls.Certificate   // client leaf signed by cas[0]
 	clientBad tls.Certificate   // client leaf signed by cas[1]
-	clients   []tls.Certificate // clients[j]: client leaf CN "client-j" signed by cas[0]
+	clients   []tls.Certificate // clients[j]: client leaf CN "client-j" signed by its OWN CA clientCAs[j] (j = 0..9)
+	clientCAs []*c12CA          // a server naming clientCAs[j] as acceptable selects exactly clients[j]
 }
 
 var (
@@ -131,8 +132,10 @@ func c12GetPKI() *c12PKI {
 		}
 		p.clientOK = p.cas[0].leaf("client-ok", false, nil, nil)
 		p.clientBad = p.cas[1].leaf("client-bad", false, nil, nil)
-		for j := 0; j < 4; j++ {
-			p.clients = append(p.clients, p.cas[0].leaf(fmt.Sprintf("client-%d", j), false, nil, nil))
+		for j := 0; j < 10; j++ {
+			ca := c12NewCA(fmt.Sprintf("client-ca-%d", j))
+			p.clientCAs = append(p.clientCAs, ca)
+			p.clients = append(p.clients, ca.leaf(fmt.Sprintf("client-%d", j), false, nil, nil))
 		}
 		c12pki = p
 	})
@@ -184,6 +187,29 @@ type c12Origin struct {
 	reqs    sync.Map     // proto -> *atomic.Int64
 	mu      sync.Mutex
 	seen    []c12Seen
+	hellos  []c12Hello // every ClientHello received (TCP and QUIC listeners), in order
+}
+
+// c12Hello is what a ClientHello offered.
+type c12Hello struct {
+	quic bool
+	sni  string
+	alpn []string
+}
+
+func (o *c12Origin) noteHello(quic bool, chi *tls.ClientHelloInfo) {
+	o.mu.Lock()
+	o.hellos = append(o.hellos, c12Hello{quic, chi.ServerName, append([]string(nil), chi.SupportedProtos...)})
+	o.mu.Unlock()
+}
+
+func (o *c12Origin) hellosFrom(n int) []c12Hello {
+	o.mu.Lock()
+	defer o.mu.Unlock()
+	if n > len(o.hellos) {
+		n = len(o.hellos)
+	}
+	return append([]c12Hello(nil), o.hellos[n:]...)
 }
 
 // c12Seen is what the origin saw of one request.
@@ -302,7 +328,12 @@ func c12StartOrigin(offer c12Offer) (*c12Origin, error) {
 		}
 		h := o.handler()
 		if offer.h3 {
-			qc := qhttp3.ConfigureTLSConfig(baseTLS())
+			qb := baseTLS()
+			qb.GetConfigForClient = func(chi *tls.ClientHelloInfo) (*tls.Config, error) {
+				o.noteHello(true, chi)
+				return nil, nil
+			}
+			qc := qhttp3.ConfigureTLSConfig(qb)
 			o.h3srv = &qhttp3.Server{Handler: h, TLSConfig: qc, QUICConfig: &quic.Config{MaxIdleTimeout: 20 * time.Second}}
 			go o.h3srv.Serve(o.udp)
 		}
@@ -317,8 +348,9 @@ func c12StartOrigin(offer c12Offer) (*c12Origin, error) {
 		}
 		tc := baseTLS()
 		tc.NextProtos = append([]string(nil), offer.alpn...)
-		tc.GetConfigForClient = func(*tls.ClientHelloInfo) (*tls.Config, error) {
+		tc.GetConfigForClient = func(chi *tls.ClientHelloInfo) (*tls.Config, error) {
 			o.tcpTLS.Add(1) // a TLS ClientHello arrived on the TCP listener
+			o.noteHello(false, chi)
 			return nil, nil
 		}
 		o.srv = &http.Server{Handler: h, TLSConfig: tc, ErrorLog: c12NullLog()}
